@@ -28,6 +28,34 @@ PADS = [(b'X-Pad', b'v'), (b'Date', b'Sat, 26 Sep 2026 10:00:00 GMT'), (b'Server
 PAD_CE_GZIP = 4
 
 
+VSPACE_SEPS = [b'\xc3\x85', b'\x85', b'\x0c', b'\x0b', b'\x1c', b'\x1d', b'\x1e']
+VSPACE_FIELDS = [b'Content-Length: 1', b'Content-Length: 0', b'Transfer-Encoding: chunked', b'Connection: close',
+                 b'Content-Encoding: gzip']
+
+
+def directed_choices():
+    """Renderings that the random generator produces only now and then, each forced at least once whatever the seed:
+    the transfer-coding list spread over two field lines, a folded line holding only white space, every line-break
+    octet in front of every framing-like text, interim responses with each status code."""
+    base = dict(method='GET', status=200, interim=0, icode=100, ver='1.1', te='none', cl='exact', conn='none', fmt='crlf',
+                content=b'hello world', gzip=False, trunc_frac=None, sclose=False)
+    out = []
+    for cl in ('none', 'exact'):
+        for conn in ('none', 'close'):
+            out.append(dict(base, te='gzip, chunked', cl=cl, conn=conn, split_te=True))
+            out.append(dict(base, te='gzip, chunked', cl=cl, conn=conn, split_te=False))
+    for fmt in ('foldblank', 'folded', 'dup', 'lf', 'nospace'):
+        for te in ('none', 'chunked'):
+            out.append(dict(base, fmt=fmt, te=te, cl='none' if te != 'none' else 'exact'))
+    for i in range(len(VSPACE_SEPS)):
+        for j in range(len(VSPACE_FIELDS)):
+            out.append(dict(base, vspace=(i, j), cl='exact' if (i + j) % 2 else 'none', sclose=True))
+    for icode in (100, 102, 103):
+        for te in ('none', 'chunked'):
+            out.append(dict(base, interim=1, icode=icode, te=te, cl='none' if te != 'none' else 'exact'))
+    return out
+
+
 def tok(kind, val, style=0):
     return 1000 + kind * 100000 + val * 10 + style
 
@@ -294,7 +322,7 @@ def build_cmsg(ch, rng=None):
             lines.append(('head', line_text(tok(kind, val, 2), name, value), eol, tok(kind, val, 2)))
             lead = r.choice([b' ', b'\t', b'  ']) if r else b' '
             lines.append(('head', lead + value, eol, tok(kind, val, 3)))
-        elif r and kind == KTE and val == 3 and r.random() < 0.5:
+        elif r and kind == KTE and val == 3 and (ch['split_te'] if ch.get('split_te') is not None else r.random() < 0.5):
             # the coding list spread over two field lines: "gzip" and "chunked" (equivalent to one comma-separated line)
             lines.append(('head', name + b': gzip', eol, None))
             lines.append(('head', _case(r, b'Transfer-Encoding') + b': ' + r.choice([b'chunked', b'Chunked']), eol, None))
@@ -313,12 +341,13 @@ def build_cmsg(ch, rng=None):
     lines.append(('head', line_text(t), eol, t))
     fold_te = te != 'none'
     fold_cl = not fold_te and cl != 'none'
-    if r and r.random() < 0.05:
+    if r and (ch.get('vspace') is not None or r.random() < 0.05):
         # ONE field line (lines end at LF) whose value holds an octet that str.splitlines() takes for a line end,
         # followed by text that looks like a framing field: it is part of that value and frames nothing
-        sep = r.choice([b'\xc3\x85', b'\x85', b'\x0c', b'\x0b', b'\x1c', b'\x1d', b'\x1e'])
-        ph = r.choice([b'Content-Length: 1', b'Content-Length: 0', b'Transfer-Encoding: chunked', b'Connection: close',
-                       b'Content-Encoding: gzip'])
+        sep = r.choice(VSPACE_SEPS)
+        ph = r.choice(VSPACE_FIELDS)
+        if ch.get('vspace') is not None:
+            sep, ph = VSPACE_SEPS[ch['vspace'][0]], VSPACE_FIELDS[ch['vspace'][1]]
         lines.append(('head', b'X-Author: J' + sep + ph, eol, None))
         nonabs.append(2)
     fields = []
